@@ -307,6 +307,16 @@ func c05cScenario(m *vk.M, idx int) {
 		if cr.judge(c, c.Doc, ref, d, "valid", nil) {
 			return
 		}
+		// results are independent: the first result is overwritten in place, the document loaded again
+		g.Scramble(ref.res.Elem())
+		ref, d = cr.call(false, c.Doc, "class=valid;second-use-after-scrambling-first-result")
+		if ref.pv == nil && (ref.err != nil || !g.Equal(ref.res.Elem(), c.Expect.Elem())) {
+			m.Violate("C05:results-share-state", d, "second load of the same document after the first result was modified in place: %s\nwant: %s", ref, g.Show(c.Expect))
+			return
+		}
+		if cr.judge(c, c.Doc, ref, d, "valid", nil) {
+			return
+		}
 		y, dy := cr.call(true, c.Doc, "class=valid")
 		if cr.judge(c, c.Doc, y, dy, "valid", nil) || cr.same(ref, y, dy, "C05:json-yaml-diverge", "valid document as YAML") {
 			return
